@@ -57,6 +57,11 @@ def run(tier, seed, res, lean):
     from .. import suite_impure
     for b in [b for b in suite_impure.run_combined() if b['kind'] == 'c01'][:2]:
         res.violations.append(Violation('c01-combined-by-value', b['msg'][:300], {'suite': 'S-IMPURE/combined', **b}))
+    # External layers (ordinary objects wrapped as layers): every compiled field returns what the wrapped object returns
+    from .. import suite_external
+    ext = pmap(suite_external.run_shard, [(seed * 59 + i + 1, 4 if tier == 'quick' else 30) for i in range(16)])
+    for p in [p for o in ext for p in o[1] if p.get('kind') != 'collision'][:3]:
+        res.violations.append(Violation('c01-external', p['msg'][:400], {'suite': 'S-EXTERNAL', **p}))
     stats = merge_stats([o[0] for o in outs])
     bad = [b for o in outs for b in o[1]]
     oracle_bad = [b for o in outs for b in o[2]]
